@@ -1,7 +1,8 @@
 import OmplModel.Model.Rng
+import OmplModel.Model.RngSphere
 import OmplModel.Driver.Common
 /-!
-Line-protocol driver for the RNG model.  Header: `rng clock=<c>` (`c` = the value the model's seed generator
+Line-protocol driver for the RNG model.  Header: `rng clock=<c> [copies=rebind]` (`c` = the value the model's seed generator
 takes for the microsecond clock; the C++ harness ignores it and uses the real clock).
 
 ops (k = index of an RNG object in creation order; doubles as u64 bit patterns)
@@ -10,8 +11,16 @@ ops (k = index of an RNG object in creation order; doubles as u64 bit patterns)
   setseed <s>               -> msg=<silent|error-started|warn-zero-ignored|warn-zero-using-one> first=…
   new                       -> id=<k> seed=<localSeed>          (RNG::RNG())
   newl <s>                  -> id=<k> seed=<s>                  (RNG::RNG(localSeed))
+  copy <k>                  -> id=<n> seed=<localSeed>          (RNG(const RNG&), the implicit copy constructor)
   lseed <k>                 -> seed=<localSeed>
   reseed <k> <s>            -> ok                               (RNG::setLocalSeed)
+  sphere <k> <dim>          -> bits…                            (RNG::uniformNormalVector, dim 1..64)
+  ball <k> <dim> <r>        -> bits…                            (RNG::uniformInBall)
+  phs <k> <dim> <d> [pre…]  -> pre <bits…>   uniformProlateHyperspheroid: the model prints the unit-ball point that
+  phss <k> <dim> <d> [pre…] -> pre <bits…>   is handed to ProlateHyperspheroid::transform (phss: the sphere point of
+                               …Surface); the harness prints the same line iff its output equals transform(pre…)
+  shuffle <k> <n>           -> perm …                           (RNG::shuffle of 0..n-1, n ≤ 5000)
+  boosttables               -> tables=<fnv64 of the four ziggurat tables>
   u01 <k> | g01 <k> | bool <k> | quat <k> | rpy <k>
   u01n <k> <n> | g01n <k> <n>                                   (n draws on one line)
   ureal <k> <lo> <hi> | gauss <k> <mean> <stddev> | hnr <k> <rmin> <rmax> <focus>      (bits)
@@ -23,21 +32,36 @@ open OmplModel.Rng OmplModel.Driver
 structure St where
   clock : UInt64
   w : World
+  /-- (copy, owner): object `copy` was copy-constructed; its SphericalData is bound to the generator of `owner` -/
+  copies : List (Nat × Nat) := []
+  /-- header option `copies=rebind`: the tree under test declares `RNG(const RNG&)` (the proposed fix of F200), whose
+  copies get a SphericalData of their own -/
+  rebind : Bool := false
+
+def St.ownerOf (st : St) (k : Nat) : Nat :=
+  match st.copies.lookup k with
+  | some o => o
+  | none => k
 
 def parseU64? (s : String) : Option UInt64 :=
   match s.toNat? with
   | some n => if n < 2^64 then some (UInt64.ofNat n) else none
   | none => none
 
-def init (ts : List String) : Option St :=
+def init1 (ts : List String) : Option St :=
   match ts with
   | ["rng", c] =>
     if c.startsWith "clock=" then
       match parseU64? ((c.drop 6).toString) with
-      | some c => some ⟨c, World.start c⟩
+      | some c => some { clock := c, w := World.start c }
       | none => none
     else none
   | _ => none
+
+def init (ts : List String) : Option St :=
+  match ts with
+  | [a, c, "copies=rebind"] => (init1 [a, c]).map fun st => { st with rebind := true }
+  | _ => init1 ts
 
 def showFirst (st : St) : String :=
   if st.w.sg.firstSeed = st.clock then "first=clock" else s!"first={st.w.sg.firstSeed.toNat}"
@@ -65,6 +89,31 @@ def onRng (st : St) (k : String) (op : Op) : St × String :=
     if h : k < st.w.rngs.size then
       let d := (st.w.rngs[k]).step op
       ({ st with w := { st.w with rngs := st.w.rngs.set k d.2 } }, showOut d.1)
+    else (st, "no-such-rng")
+
+
+/-- FNV-1a over the little-endian bytes of the tables' bit patterns (same as `Fnv::u64` in harness/rng.cpp) -/
+def fnvU64 (h : UInt64) (v : UInt64) : UInt64 :=
+  (List.range 8).foldl (fun h i => (h ^^^ ((v >>> (8 * i).toUInt64) &&& 0xff)) * 1099511628211) h
+
+def tablesHash : UInt64 :=
+  [Boost.normalX, Boost.normalY, Boost.expX, Boost.expY].foldl
+    (fun h t => t.foldl (fun h x => fnvU64 h x.toBits) h) 1469598103934665603
+
+/-- apply one extended op to RNG number `k` (sphere-based routines go through the generator its SphericalData is
+bound to, which for a copy is the original's) -/
+def onRngX (st : St) (k : String) (op : OpX) : St × String :=
+  match parseNat? k with
+  | none => (st, "bad-op")
+  | some k =>
+    if k < st.w.rngs.size then
+      let d : Option (List Float) × Array Rng :=
+        match op with
+        | .sphere dim => sphereAt st.w.rngs (st.ownerOf k) dim
+        | .ball r dim => ballAt st.w.rngs k (st.ownerOf k) r dim
+        | .base _ => (none, st.w.rngs)
+        | .shuffle _ => (none, st.w.rngs)
+      ({ st with w := { st.w with rngs := d.2 } }, showOut (optReals d.1))
     else (st, "no-such-rng")
 
 def repeatOp (st : St) (k : String) (op : Op) : Nat → List String → St × List String
@@ -106,10 +155,50 @@ def step (st : St) (ts : List String) : St × String :=
     match parseU64? s with
     | some s => ({ st with w := st.w.newLocal s }, s!"id={st.w.rngs.size} seed={s.toNat}")
     | none => (st, "bad-op")
+  | ["copy", k] =>
+    match parseNat? k with
+    | some k =>
+      match st.w.rngs[k]? with
+      | some r =>
+        ({ st with w := { st.w with rngs := st.w.rngs.push r }, copies := if st.rebind then st.copies else (st.w.rngs.size, st.ownerOf k) :: st.copies },
+         s!"id={st.w.rngs.size} seed={r.localSeed.toNat}")
+      | none => (st, "no-such-rng")
+    | none => (st, "bad-op")
   | ["lseed", k] => onRng st k .getLocalSeed
   | ["reseed", k, s] =>
     match parseU64? s with
     | some s => onRng st k (.setLocalSeed s)
+    | none => (st, "bad-op")
+  | ["shuffle", k, n] =>
+    match parseNat? k, parseNat? n with
+    | some k, some n =>
+      if n > 5000 then (st, "bad-op")
+      else match st.w.rngs[k]? with
+        | none => (st, "no-such-rng")
+        | some r =>
+          let d := r.shuffle (Array.range n)
+          match d.1 with
+          | none => (st, "diverged")
+          | some a =>
+            ({ st with w := { st.w with rngs := st.w.rngs.setIfInBounds k d.2 } },
+             joinSp ("perm" :: a.toList.map toString))
+    | _, _ => (st, "bad-op")
+  | ["boosttables"] => (st, s!"tables={tablesHash.toNat}")
+  | ["sphere", k, d] =>
+    match parseNat? d with
+    | some d => if 1 ≤ d ∧ d ≤ 64 then onRngX st k (.sphere d) else (st, "bad-op")
+    | none => (st, "bad-op")
+  | ["ball", k, d, r] =>
+    match parseNat? d, parseFloatBits? r with
+    | some d, some r => if 1 ≤ d ∧ d ≤ 64 then onRngX st k (.ball r d) else (st, "bad-op")
+    | _, _ => (st, "bad-op")
+  | "phs" :: k :: d :: _ :: _ =>
+    match parseNat? d with
+    | some d => if 2 ≤ d ∧ d ≤ 16 then let x := onRngX st k (.ball 1.0 d); (x.1, "pre " ++ x.2) else (st, "bad-op")
+    | none => (st, "bad-op")
+  | "phss" :: k :: d :: _ :: _ =>
+    match parseNat? d with
+    | some d => if 2 ≤ d ∧ d ≤ 16 then let x := onRngX st k (.sphere d); (x.1, "pre " ++ x.2) else (st, "bad-op")
     | none => (st, "bad-op")
   | ["u01", k] => onRng st k .uniform01
   | ["g01", k] => onRng st k .gaussian01
@@ -133,7 +222,7 @@ def step (st : St) (ts : List String) : St × String :=
   | ["uint", k, a, b] =>
     match parseInt? a, parseInt? b with
     | some a, some b =>
-      if a ≤ b ∧ -1000000000 ≤ a ∧ b ≤ 1000000000 then onRng st k (.uniformInt a b) else (st, "bad-op")
+      if a ≤ b ∧ -2147483648 ≤ a ∧ b ≤ 2147483647 then onRng st k (.uniformInt a b) else (st, "bad-op")
     | _, _ => (st, "bad-op")
   | ["hni", k, a, b, f] =>
     match parseInt? a, parseInt? b, parseFloatBits? f with
